@@ -16,7 +16,7 @@ import numpy as np
 from .. import core
 
 SCORERS = ["l2", "l2-fixed", "gvar", "gvar-fixed", "gcov", "gcov-fixed", "cusum", "chg-l2", "chg-gvar", "chg-gcov", "l2saving",
-           "sav-l2", "sav-gvar", "loc-l2", "loc-gvar", "loc-gcov"]
+           "sav-l2", "sav-gvar", "loc-l2", "loc-gvar", "loc-gcov", "chg-gvar-fixed", "loc-gvar-fixed", "loc-gcov-fixed", "gcov-fixed-scalar-mean"]
 
 
 def mk(name, p):
@@ -32,6 +32,11 @@ def mk(name, p):
         "l2saving": lambda: L2Saving(), "sav-l2": lambda: Saving(L2Cost(param=0.0)), "sav-gvar": lambda: Saving(GaussianVarCost(param=(0.0, 1.0))),
         "loc-l2": lambda: LocalAnomalyScore(L2Cost()), "loc-gvar": lambda: LocalAnomalyScore(GaussianVarCost()),
         "loc-gcov": lambda: LocalAnomalyScore(GaussianCovCost()),
+        # adapters around costs with a fixed parameter and a minimum size above 1; a scalar mean broadcast over all columns
+        "chg-gvar-fixed": lambda: ChangeScore(GaussianVarCost(param=(0.2, 1.5))),
+        "loc-gvar-fixed": lambda: LocalAnomalyScore(GaussianVarCost(param=(0.2, 1.5))),
+        "loc-gcov-fixed": lambda: LocalAnomalyScore(GaussianCovCost(param=(0.0, 2.0))),
+        "gcov-fixed-scalar-mean": lambda: GaussianCovCost(param=(0.5, 1.0)),
     }[name]()
 
 
@@ -47,7 +52,7 @@ def box_cases(tier):
             for refit in (False, True):
                 if refit and p == 2:
                     continue
-                k = 4 if name.startswith("loc") else 3 if name in ("cusum", "chg-l2", "chg-gvar", "chg-gcov") else 2
+                k = 4 if name.startswith("loc") else 3 if name in ("cusum", "chg-l2", "chg-gvar", "chg-gcov", "chg-gvar-fixed") else 2
                 n = {2: 6, 3: 5, 4: 4}[k] + (1 if tier == "thorough" else 0)
                 if "gcov" in name:
                     n += 1  # min_size = p + 1
@@ -165,7 +170,7 @@ def oracle_box(c, r):
 def malformed_cases():
     out = []
     for name in SCORERS:
-        for kind in ["float", "bool", "wide", "narrow", "1d-ok", "1d-bad", "3d", "empty", "float-integral", "list"]:
+        for kind in ["float", "bool", "wide", "narrow", "1d-ok", "1d-bad", "1d-multi", "1d-empty", "3d", "empty", "float-integral", "list"]:
             out.append({"scorer": name, "kind": kind})
     return out
 
@@ -185,7 +190,10 @@ def impl_malformed(c):
     arr = {"float": np.array([good], dtype=float) + 0.5, "bool": np.array([good]) > 1, "wide": np.array([good + [9]]),
            "narrow": np.array([good[:-1]]), "1d-ok": np.array(good), "1d-bad": np.array(good[:-1]),
            "3d": np.array([[good]]), "empty": np.zeros((0, k), dtype=int), "float-integral": np.array([good], dtype=float),
-           "list": [good]}[kind]
+           "list": [good],
+           # a flat vector as long as two rows (it is ONE row of twice the width, not two rows), and an empty flat vector
+           "1d-multi": np.array({2: [0, 4, 5, 9], 3: [0, 3, 6, 6, 7, 9][:3] + [1, 5, 9], 4: [0, 2, 4, 6, 1, 3, 6, 9]}[k]),
+           "1d-empty": np.array([], dtype=int)}[kind]
     cls, v = classify(lambda: sc.evaluate(arr))
     return {"outcome": "ok", "cls": cls, "shape": None if v is None else list(np.shape(v))}
 
